@@ -545,37 +545,39 @@ Proof.
   apply Z.eqb_eq in E. rewrite (Hq E). reflexivity.
 Qed.
 
-Lemma clamp64_in_range z : out_of_int64 z = false -> clamp64 z = z /\ (min_int64 <=? z) && (z <=? max_int64) = true.
-Proof.
-  unfold out_of_int64, clamp64. intro H. apply orb_false_iff in H. destruct H as [H1 H2].
-  rewrite H1, H2. split; [reflexivity|]. apply Z.ltb_ge in H1. apply Z.ltb_ge in H2.
-  apply andb_true_iff. split; apply Z.leb_le; assumption.
-Qed.
-
 Lemma conv_int_bigf_spec m e :
-  clamped_bigf (BFin m e) = false ->
   conv_int_bigf (BFin m e) = spec_frac min_int64 max_int64 VInt (fst (dy_frac m e)) (snd (dy_frac m e)).
 Proof.
-  intro Hc. pose proof (dy_frac_int m e) as H. destruct (dy_frac m e) as [n d]. simpl fst. simpl snd.
-  destruct H as (Hd & Hi & Hv). unfold conv_int_bigf, int_of_bigf, spec_frac.
-  simpl in Hc. rewrite <- Hi, <- Hv. destruct (is_int m e); [|reflexivity].
-  simpl in Hc. destruct (clamp64_in_range _ Hc) as [-> ->]. reflexivity.
+  pose proof (dy_frac_int m e) as H. destruct (dy_frac m e) as [n d]. simpl fst. simpl snd.
+  destruct H as (Hd & Hi & Hv). unfold conv_int_bigf, spec_frac, z_in_range.
+  rewrite <- Hi, <- Hv. reflexivity.
+Qed.
+
+Lemma int_val_neg m e : m < 0 -> is_int m e = true -> int_val m e < 0.
+Proof.
+  unfold is_int, int_val. intros Hm Hi. destruct (0 <=? e) eqn:E.
+  - apply Z.leb_le in E. assert (0 < 2 ^ e) by (apply Z.pow_pos_nonneg; lia). nia.
+  - apply Z.leb_gt in E. assert (0 < 2 ^ (- e)) by (apply Z.pow_pos_nonneg; lia).
+    apply Z.div_lt_upper_bound; lia.
+Qed.
+
+Lemma int_val_nonneg m e : 0 <= m -> 0 <= int_val m e.
+Proof.
+  unfold int_val. intro Hm. destruct (0 <=? e) eqn:E.
+  - apply Z.leb_le in E. assert (0 < 2 ^ e) by (apply Z.pow_pos_nonneg; lia). nia.
+  - apply Z.leb_gt in E. assert (0 < 2 ^ (- e)) by (apply Z.pow_pos_nonneg; lia).
+    apply Z.div_pos; lia.
 Qed.
 
 Lemma conv_uint_bigf_spec m e :
-  clamped_bigf (BFin m e) = false ->
   conv_uint_bigf (BFin m e) = spec_frac 0 max_uint64 VUint (fst (dy_frac m e)) (snd (dy_frac m e)).
 Proof.
-  intro Hc. pose proof (dy_frac_int m e) as H. destruct (dy_frac m e) as [n d]. simpl fst. simpl snd.
-  destruct H as (Hd & Hi & Hv). unfold conv_uint_bigf, int_of_bigf, spec_frac.
-  simpl in Hc. rewrite <- Hi, <- Hv. destruct (is_int m e); [|reflexivity].
-  simpl in Hc. destruct (clamp64_in_range _ Hc) as [-> Hr].
-  apply andb_true_iff in Hr. destruct Hr as [_ Hhi]. apply Z.leb_le in Hhi.
-  destruct (int_val m e <? 0) eqn:E.
-  - apply Z.ltb_lt in E. replace (0 <=? int_val m e) with false by (symmetry; apply Z.leb_gt; lia). reflexivity.
-  - apply Z.ltb_ge in E. replace (0 <=? int_val m e) with true by (symmetry; apply Z.leb_le; lia).
-    replace (int_val m e <=? max_uint64) with true; [reflexivity|].
-    symmetry. apply Z.leb_le. unfold max_int64 in Hhi. unfold max_uint64. lia.
+  pose proof (dy_frac_int m e) as H. destruct (dy_frac m e) as [n d]. simpl fst. simpl snd.
+  destruct H as (Hd & Hi & Hv). unfold conv_uint_bigf, spec_frac, z_in_range.
+  rewrite <- Hi, <- Hv. destruct (is_int m e) eqn:Ei; [|reflexivity].
+  destruct (m <? 0) eqn:Em; [|reflexivity].
+  apply Z.ltb_lt in Em. pose proof (int_val_neg m e Em Ei) as Hneg.
+  replace (0 <=? int_val m e) with false by (symmetry; apply Z.leb_gt; lia). reflexivity.
 Qed.
 
 Lemma exact_parts_den_pos mant e2 e5 : 0 < snd (exact_parts mant e2 e5).
@@ -614,24 +616,23 @@ Proof.
 Qed.
 
 Lemma conv_numeric_spec (k : bigf -> cres) lo hi mk v :
-  (forall m e, clamped_bigf (BFin m e) = false ->
-               k (BFin m e) = spec_frac lo hi mk (fst (dy_frac m e)) (snd (dy_frac m e))) ->
+  (forall m e, k (BFin m e) = spec_frac lo hi mk (fst (dy_frac m e)) (snd (dy_frac m e))) ->
   (forall n, k (BInf n) = CErr) ->
-  num_clamped v = false -> num_inexact v = false ->
+  num_inexact v = false ->
   conv_numeric k v = match v with JNum FNaN => CPanic | _ => spec_int lo hi mk v end.
 Proof.
-  intros Hk Hinf Hc Hx. destruct v as [|b|f|s|l|l]; try reflexivity.
+  intros Hk Hinf Hx. destruct v as [|b|f|s|l|l]; try reflexivity.
   - destruct f as [|n|m e]; [reflexivity|simpl; apply Hinf|].
-    simpl. rewrite spec_int_frac. simpl. simpl in Hc. rewrite (Hk _ _ Hc). reflexivity.
+    simpl. rewrite spec_int_frac. simpl. rewrite Hk. reflexivity.
   - rewrite spec_int_frac. simpl conv_numeric. simpl exact_frac.
-    pose proof (parse_exact_value s Hx) as H. simpl in Hc.
+    pose proof (parse_exact_value s Hx) as H.
     destruct (parse_bigf s) as [| |b x].
     + destruct (scan_exact s); try contradiction. reflexivity.
     + destruct (scan_exact s); try contradiction. reflexivity.
     + destruct b as [nb|m e]; destruct (scan_exact s) as [| |n'|n d]; try contradiction.
       * apply Hinf.
       * destruct H as [Hd Hv].
-        rewrite (Hk _ _ Hc). apply spec_frac_equiv; [apply dy_frac_den_pos|exact Hd|exact Hv].
+        rewrite Hk. apply spec_frac_equiv; [apply dy_frac_den_pos|exact Hd|exact Hv].
 Qed.
 
 Lemma existsb_false_in {A} (f : A -> bool) l x : existsb f l = false -> In x l -> f x = false.
@@ -654,42 +655,91 @@ Proof.
 Qed.
 
 (* Values are converted to the declared type exactly, or the conversion fails -- PARTIAL: under
-   the hypotheses that no big.Float.Int64() result was clamped and that every decimal string
-   given for an int/uint is exactly representable in the 64 bits big.ParseFloat keeps.
-   Without them the statement is false: see convert_int_clamp_refuted / convert_fraction_rounded_refuted. *)
+   the hypothesis that every decimal string given for an int/uint is exactly representable in
+   the 64 bits big.ParseFloat keeps.  Without it the statement is false: see
+   convert_fraction_rounded_refuted.  (The former second hypothesis "no Int64() clamp" is gone
+   with the repair fd0d452 of finding F8.) *)
 Theorem convert_exact_or_error_partial ext t : forall v,
-  conv_flag num_clamped t v = false -> conv_flag num_inexact t v = false ->
+  conv_flag num_inexact t v = false ->
   convert ext t v = spec_convert ext t v.
 Proof.
-  induction t as [| | | | |t IH|t IH| | | | |]; intros v Hc Hx; try reflexivity.
+  induction t as [| | | | |t IH|t IH| | | | |]; intros v Hx; try reflexivity.
   - simpl in *. apply conv_numeric_spec; auto using conv_int_bigf_spec.
   - simpl in *. apply conv_numeric_spec; auto using conv_uint_bigf_spec.
   - simpl in *. destruct v as [|b|f|s|l|l]; try reflexivity.
     apply conv_all_ext. intros x Hin. apply IH; eapply existsb_false_in; eauto.
   - simpl in *. destruct v as [|b|f|s|l|l]; try reflexivity.
     apply conv_all_kv_ext. intros kv Hin. apply IH.
-    + apply (existsb_false_in _ _ _ Hc Hin).
-    + apply (existsb_false_in _ _ _ Hx Hin).
+    apply (existsb_false_in _ _ _ Hx Hin).
+Qed.
+
+Lemma convert_numeric_spec_int ext v :
+  num_inexact v = false -> exact_frac v <> SErr ->
+  convert ext TInt v = spec_int min_int64 max_int64 VInt v /\
+  convert ext TUint v = spec_int 0 max_uint64 VUint v.
+Proof.
+  intros Hx Hf.
+  rewrite (convert_exact_or_error_partial ext TInt v Hx), (convert_exact_or_error_partial ext TUint v Hx).
+  simpl. destruct v as [|b|f|s|l|l]; try (split; reflexivity).
+  destruct f as [|n|m e]; try (split; reflexivity). exfalso. apply Hf. reflexivity.
 Qed.
 
 (* in particular: an accepted int is the exact value of what the context carried *)
 Corollary convert_int_exact_partial ext v z n d :
-  num_clamped v = false -> num_inexact v = false ->
+  num_inexact v = false ->
   convert ext TInt v = COk (VInt z) -> exact_frac v = SFrac n d ->
   n = z * d /\ min_int64 <= z <= max_int64.
 Proof.
-  intros Hc Hx Hcv Hf.
-  rewrite (convert_exact_or_error_partial ext TInt v Hc Hx) in Hcv. simpl in Hcv.
-  assert (Hs : spec_int min_int64 max_int64 VInt v = COk (VInt z)).
-  { destruct v as [|b|f|s|l|l]; try exact Hcv. destruct f; [discriminate|exact Hcv|exact Hcv]. }
-  rewrite spec_int_frac, Hf in Hs. unfold spec_frac in Hs.
+  intros Hx Hcv Hf.
+  assert (Hne : exact_frac v <> SErr) by (rewrite Hf; discriminate).
+  destruct (convert_numeric_spec_int ext v Hx Hne) as [Hs _]. rewrite Hs in Hcv. clear Hs.
+  rewrite spec_int_frac, Hf in Hcv. unfold spec_frac in Hcv.
   destruct (n mod d =? 0) eqn:Em; [|discriminate]. apply Z.eqb_eq in Em.
   destruct ((min_int64 <=? n / d) && (n / d <=? max_int64)) eqn:Er; [|discriminate].
-  inversion Hs; subst z. apply andb_true_iff in Er. destruct Er as [E1 E2].
+  inversion Hcv; subst z. apply andb_true_iff in Er. destruct Er as [E1 E2].
   apply Z.leb_le in E1. apply Z.leb_le in E2. split; [|lia].
   destruct (Z.eq_dec d 0) as [->|Hd].
   - rewrite Zmod_0_r in Em. lia.
   - pose proof (Z.div_mod n d Hd). lia.
+Qed.
+
+Lemma spec_frac_out_of_range lo hi mk n d :
+  0 < d -> (n < lo * d \/ hi * d < n) -> spec_frac lo hi mk n d = CErr.
+Proof.
+  intros Hd Hr. unfold spec_frac. destruct (n mod d =? 0) eqn:Em; [|reflexivity].
+  apply Z.eqb_eq in Em. apply Z.mod_divide in Em; [|lia]. destruct Em as [k Hk]. subst n.
+  rewrite Z.div_mul by lia.
+  destruct ((lo <=? k) && (k <=? hi)) eqn:Er; [|reflexivity].
+  apply andb_true_iff in Er. destruct Er as [E1 E2]. apply Z.leb_le in E1. apply Z.leb_le in E2.
+  exfalso. destruct Hr as [Hr|Hr]; nia.
+Qed.
+
+(* a value beyond the range of the declared integer type is a type error (it used to be clamped):
+   exact value n/d below lo or above hi.  Hypothesis: the value was not inexactly parsed. *)
+Theorem convert_out_of_range_is_error ext v n d :
+  num_inexact v = false -> exact_frac v = SFrac n d -> 0 < d ->
+  ((n < min_int64 * d \/ max_int64 * d < n) -> convert ext TInt v = CErr) /\
+  ((n < 0 \/ max_uint64 * d < n) -> convert ext TUint v = CErr).
+Proof.
+  intros Hx Hf Hd.
+  assert (Hne : exact_frac v <> SErr) by (rewrite Hf; discriminate).
+  destruct (convert_numeric_spec_int ext v Hx Hne) as [Hi Hu]. rewrite Hi, Hu, !spec_int_frac, Hf.
+  split; intro Hr; apply spec_frac_out_of_range; auto.
+Qed.
+
+(* every uint64, up to 2^64-1, converts to itself (values above MaxInt64 used to become MaxInt64) *)
+Theorem convert_uint_full_range ext v z d :
+  num_inexact v = false -> exact_frac v = SFrac (z * d) d -> 0 < d ->
+  0 <= z <= max_uint64 ->
+  convert ext TUint v = COk (VUint z).
+Proof.
+  intros Hx Hf Hd Hz.
+  assert (Hne : exact_frac v <> SErr) by (rewrite Hf; discriminate).
+  destruct (convert_numeric_spec_int ext v Hx Hne) as [_ Hu]. rewrite Hu, spec_int_frac, Hf.
+  unfold spec_frac. rewrite Z.mod_mul by lia. simpl (0 =? 0). cbv iota.
+  rewrite Z.div_mul by lia.
+  replace (0 <=? z) with true by (symmetry; apply Z.leb_le; lia).
+  replace (z <=? max_uint64) with true by (symmetry; apply Z.leb_le; lia). reflexivity.
 Qed.
 
 (* ------------------------------------------------------------------------------------------ *)
@@ -715,20 +765,19 @@ Qed.
 
 (* The code computes what the property describes (exact conversion or failure, stored context
    first, every declared parameter bound, met <=> true) -- PARTIAL: whenever no conversion of
-   this evaluation clamped an out-of-range number or took an inexactly parsed decimal string. *)
+   this evaluation took an inexactly parsed decimal string for an int/uint. *)
 Theorem evaluate_matches_spec_partial ext tname stored ec req :
-  (forall c, ec = Some c -> eval_flag num_clamped c req stored = false /\
-                            eval_flag num_inexact c req stored = false) ->
+  (forall c, ec = Some c -> eval_flag num_inexact c req stored = false) ->
   evaluate_tuple_condition (convert ext) tname stored ec req =
   evaluate_tuple_condition (spec_convert ext) tname stored ec req.
 Proof.
   intro Hf. unfold evaluate_tuple_condition. destruct tname as [|b0 tn]; [reflexivity|].
-  destruct ec as [c|]; [|reflexivity]. destruct (Hf c eq_refl) as [Hc Hx].
+  destruct ec as [c|]; [|reflexivity]. pose proof (Hf c eq_refl) as Hx.
   rewrite (evaluate_ext (convert ext) (spec_convert ext) c req stored); [reflexivity|].
-  intros n t v Hin Hl. unfold eval_flag in Hc, Hx. revert Hc Hx Hl.
-  destruct (merge req stored) as [|kv m']; [discriminate|]. intros Hc Hx Hl.
-  pose proof (existsb_false_in _ _ _ Hc Hin) as Hc1. pose proof (existsb_false_in _ _ _ Hx Hin) as Hx1.
-  cbv beta in Hc1, Hx1. simpl fst in Hc1, Hx1. simpl snd in Hc1, Hx1. rewrite Hl in Hc1, Hx1.
+  intros n t v Hin Hl. unfold eval_flag in Hx. revert Hx Hl.
+  destruct (merge req stored) as [|kv m']; [discriminate|]. intros Hx Hl.
+  pose proof (existsb_false_in _ _ _ Hx Hin) as Hx1.
+  cbv beta in Hx1. simpl fst in Hx1. simpl snd in Hx1. rewrite Hl in Hx1.
   apply convert_exact_or_error_partial; assumption.
 Qed.
 
@@ -737,38 +786,44 @@ Qed.
 
 Definition no_ext : N -> bytes -> bool := fun _ _ => false.
 
-(* F8: 1e19 = 19073486328125 * 2^19 given for an int parameter becomes MaxInt64 *)
-Theorem convert_int_clamp_refuted :
-  exists v z, convert no_ext TInt v = COk (VInt z) /\ spec_convert no_ext TInt v = CErr /\
-              num_clamped v = true.
-Proof. exists (JNum (FFin 19073486328125 19)), max_int64. vm_compute. auto. Qed.
+(* HISTORICAL (finding F8, repaired by fd0d452): the int64 converter as it was, dropping the
+   accuracy of big.Float.Int64().  Kept only to document what the repaired code no longer does. *)
+Definition old_clamp64 (z : Z) : Z :=
+  if z <? min_int64 then min_int64 else if max_int64 <? z then max_int64 else z.
+Definition old_conv_int_bigf (b : bigf) : cres :=
+  match b with
+  | BInf _ => CErr
+  | BFin m e => if is_int m e then COk (VInt (old_clamp64 (int_val m e))) else CErr
+  end.
+(* 1e19 = 19073486328125 * 2^19: MaxInt64 then, a type error now *)
+Example historical_int_clamp :
+  old_conv_int_bigf (BFin 19073486328125 19) = COk (VInt max_int64) /\
+  convert no_ext TInt (JNum (FFin 19073486328125 19)) = CErr /\
+  convert no_ext TUint (JNum (FFin 19073486328125 19)) = COk (VUint 10000000000000000000) /\
+  convert no_ext TUint (JNum (FFin 57220458984375 19)) = CErr.   (* 3e19 *)
+Proof. vm_compute. auto. Qed.
+(* "18446744073709551615" for a uint: MaxInt64 then, itself now *)
+Example historical_uint_max :
+  convert no_ext TUint (JStr [49;56;52;52;54;55;52;52;48;55;51;55;48;57;53;53;49;54;49;53]%N) = COk (VUint max_uint64).
+Proof. vm_compute. auto. Qed.
 
-(* ... and an in-range uint64 above MaxInt64 is replaced by MaxInt64 *)
-Theorem convert_uint_clamp_refuted :
-  exists v, convert no_ext TUint v = COk (VUint max_int64) /\
-            spec_convert no_ext TUint v = COk (VUint max_uint64).
-Proof.
-  (* "18446744073709551615" *)
-  exists (JStr [49;56;52;52;54;55;52;52;48;55;51;55;48;57;53;53;49;54;49;53]%N). vm_compute. auto.
-Qed.
-
-(* "1.00000000000000000000000001" given for an int parameter becomes 1 *)
+(* OPEN finding: "1.00000000000000000000000001" given for an int parameter becomes 1 *)
 Definition s_one_and_a_bit : bytes :=
   [49;46;48;48;48;48;48;48;48;48;48;48;48;48;48;48;48;48;48;48;48;48;48;48;48;48;48;49]%N.
 Theorem convert_fraction_rounded_refuted :
   convert no_ext TInt (JStr s_one_and_a_bit) = COk (VInt 1) /\
   spec_convert no_ext TInt (JStr s_one_and_a_bit) = CErr /\
-  num_clamped (JStr s_one_and_a_bit) = false /\ num_rounded (JStr s_one_and_a_bit) = true.
+  num_rounded (JStr s_one_and_a_bit) = true.
 Proof. vm_compute. auto. Qed.
 
-(* the condition  ci(y: int) { y == 9223372036854775807 }  is met by the request context y = 1e19 *)
+(* the condition  c1(y: int) { y == 1 }  is met by the request context y = "1.00000000000000000000000001" *)
 Definition k_y : bytes := [121]%N.
-Definition k_ci : bytes := [99; 105]%N.
-Definition cond_ci : condition :=
-  {| c_name := k_ci; c_params := [(k_y, TInt)]; c_expr := ECmp OEq (EParam k_y) (EInt max_int64) |}.
+Definition k_c1y : bytes := [99; 49]%N.
+Definition cond_c1y : condition :=
+  {| c_name := k_c1y; c_params := [(k_y, TInt)]; c_expr := ECmp OEq (EParam k_y) (EInt 1) |}.
 Theorem met_iff_exact_true_refuted :
-  evaluate_tuple_condition (convert no_ext) k_ci [] (Some cond_ci) [(k_y, JNum (FFin 19073486328125 19))] = TMet /\
-  evaluate_tuple_condition (spec_convert no_ext) k_ci [] (Some cond_ci) [(k_y, JNum (FFin 19073486328125 19))] = TErr EType.
+  evaluate_tuple_condition (convert no_ext) k_c1y [] (Some cond_c1y) [(k_y, JStr s_one_and_a_bit)] = TMet /\
+  evaluate_tuple_condition (spec_convert no_ext) k_c1y [] (Some cond_c1y) [(k_y, JStr s_one_and_a_bit)] = TErr EType.
 Proof. vm_compute. auto. Qed.
 
 (* a bound declared parameter whose conversion fails makes the evaluation fail *)
